@@ -79,6 +79,11 @@ class temperature(PseudoNetCDFFile):
         for i, (t, d) in enumerate(times):
             if (t, d) != (self.STIME, self.SDATE):
                 break
+        else:
+            # no record carries a later time stamp: the number of layers
+            # cannot be inferred (single time or truncated file)
+            raise ValueError('temperature file holds a single time stamp; ' +
+                             'the number of layers cannot be inferred')
         self.SDATE = self.SDATE.view('i')
         self.createDimension('LAY', i - 1)
         self.createDimension('TSTEP', times.shape[0] / i)
